@@ -294,6 +294,8 @@ func (env *Env) qualified(pkgName, name string) (TV, bool) {
 }
 
 func (env *Env) lookupDef(name string) *SpecDef {
+	defsMu.RLock()
+	defer defsMu.RUnlock()
 	if env.cf != nil {
 		if d, ok := env.cf.Defs[name]; ok {
 			return d
